@@ -9,7 +9,8 @@ DefIds == IF NDefs = 2 THEN <<"v_A", "v_B">> ELSE IF NDefs = 3 THEN <<"v_A", "v_
 Defs == SeqSet(DefIds)
 DataPrims == {"p_null", "p_nat", "p_int", "p_text", "p_reserved", "p_empty"}
 RefPrims == {"p_null", "p_nat", "p_int", "p_principal"}
-Prims == IF Universe = "data" THEN DataPrims ELSE RefPrims
+AliasPrims == {"p_nat", "p_null", "p_reserved"}
+Prims == IF Universe = "data" THEN DataPrims ELSE IF Universe = "alias" THEN AliasPrims ELSE RefPrims
 Refs == Prims \cup Defs
 F(i, t) == [id |-> <<0, i>>, t |-> t]
 FieldSeqs == {<<>>} \cup {<<F(i, t)>> : i \in {0, 1}, t \in Refs} \cup {<<F(0, t), F(1, u)>> : t \in Refs, u \in Refs}
@@ -22,18 +23,27 @@ RefBodies == [k : {"opt"}, a : Refs] \cup [k : {"record"}, fs : {<<>>} \cup {<<F
              \cup {[k |-> "service", ms |-> <<[name |-> nm, t |-> d]>>] : nm \in {<<109>>, <<110>>}, d \in Defs}
              \cup {[k |-> "service", ms |-> <<[name |-> <<109>>, t |-> d], [name |-> <<110>>, t |-> d2]>>] : d \in Defs, d2 \in Defs}
 Bodies == IF Universe = "data" THEN DataBodies ELSE RefBodies
+\* "alias": four definitions; A and B are names for something else (another definition or an optional-like
+\* primitive, so that null / reserved / opt are reached through up to two names), C and D are records and
+\* functions that mention them in positions the other side may lack (absent field, trailing argument / result)
+AliasBodies == [k : {"alias"}, a : Refs] \cup {[k |-> "opt", a |-> "p_nat"]}
+ARefs == {"v_A", "v_B", "p_nat", "p_null"}
+F0 == [k |-> "func", args |-> <<>>, rets |-> <<>>, modes |-> <<>>]
+StructBodies == {[k |-> "record", fs |-> <<>>]} \cup {[k |-> "record", fs |-> <<F(0, r)>>] : r \in ARefs} \cup {[k |-> "record", fs |-> <<F(0, "p_nat"), F(1, r)>>] : r \in ARefs}
+                \cup {[F0 EXCEPT !.args = <<r>>] : r \in ARefs} \cup {[F0 EXCEPT !.args = <<"p_nat", r>>] : r \in ARefs} \cup {[F0 EXCEPT !.rets = <<r>>] : r \in ARefs}
+BodiesAt(i) == IF Universe = "alias" THEN (IF i <= 2 THEN AliasBodies ELSE StructBodies) ELSE Bodies
 
 VARIABLES env, n
 vars == <<env, n>>
 PEnv == [id \in Prims |-> PrimEnv[id]]
 Init == env = PEnv /\ n = 0
-Define == n < NDefs /\ \E bd \in Bodies : env' = (DefIds[n + 1] :> bd) @@ env /\ n' = n + 1
+Define == n < NDefs /\ \E bd \in BodiesAt(n + 1) : env' = (DefIds[n + 1] :> bd) @@ env /\ n' = n + 1
 Next == Define
 Spec == Init /\ [][Next]_vars
 Complete == n = NDefs
 \* service methods must denote functions
 MethOK == \A d \in Defs : env[d].k = "service" => \A j \in DOMAIN env[d].ms : env[env[d].ms[j].t].k = "func"
-Valid == Complete /\ MethOK
+Valid == Complete /\ MethOK /\ \A d \in Defs : AliasOK(env, d, {})
 
 S == SubRel(env)
 E == EqRel(env)
